@@ -22,7 +22,7 @@ def c02_jobs(tier):
 
 
 HOOK_COMMITS = ["9929591", "7ba38e4", "8db2741"]
-MODEL_PROPERTIES = ["C02", "C09", "C10", "C11", "C12"]
+MODEL_PROPERTIES = ["C02", "C05", "C07", "C09", "C10", "C11", "C12"]
 NOT_CLAIMED = {}
 
 CHECKS = {
@@ -115,5 +115,64 @@ CHECKS = {
         "assumptions": ["the oracle uses the compiler's unsigned __int128 division"],
         "level_text": "The first clause is decided by complete enumeration (4 294 967 263 divisors, both routines). The no-op clause enumerates all 33 divisors x 8 registers x 2 versions structurally and behaviourally.",
         "level_note": "exhaustive: true refers to the divisor enumeration; the behavioural no-op runs sample scratchpad contents.",
+    },
+    "C04": {
+        "level": "exploration",
+        "technique": "differential execution interpreter vs x86 JIT on generated program buffers, under guard pages and ASan",
+        "jobs": lambda tier: [
+            {"variant": "opt", "sub": "c04", "shards": 16, "cases": T(tier, 1000, 25000), "timeout": T(tier, 1800, 10800)},
+            {"variant": "asan", "sub": "c04", "shards": T(tier, 4, 16), "cases": T(tier, 60, 1500), "args": {"directed_only": 1}, "timeout": T(tier, 1800, 10800)},
+        ],
+        "rule": "a case is (3200-byte program buffer, scratchpad content, entry rounding mode, version, AES mode, light/fast, plain/secure JIT, iteration count): program buffers come from six generators in rotation "
+                "(uniform random; one instruction type per program; directed rare encodings: IMUL_RCP 0/2^k/2^k+-1, CFROUND rotate 0, src==dst forms, r4/r5 operands, ISTORE cond 13-15, CBRANCH first/back-to-back/after ISWAP or no-op IMUL_RCP, edge immediates; "
+                "maximal-length encodings; AesGenerator4R output byte-mutated; branch-dense), configuration blocks random or extreme, scratchpads random/zero/ones/int32 extremes/small ints; a quarter run the full 2048 iterations, the rest 1-64 "
+                "(the same limit is passed to the generated function); after both engines ran from identical state the 256-byte register file, all 2 MiB of scratchpad and the MXCSR rounding bits are compared; non-trivial = at least one CBRANCH was taken; distinct by hash of the program buffer",
+        "assumptions": ["ma/mx are not compared (the generated code keeps them in a register and never writes them back; they are re-initialised by every program)", "programs are injected through the guarded programOverride hook and executed by the real vm->run()"],
+        "level_text": "Both engines execute the same buffers from the same state and every observable the property names is compared bit for bit, for thousands (quick) to hundreds of thousands (thorough) of programs with a measured instruction-type x operand-form coverage table as floor. "
+                      "The space of programs is 2^25600: sampling with directed generators is what this family can do.",
+        "level_note": "Equality with the interpreter, not with the specification (C05 closes that). The dataset is an arbitrary PRNG-filled buffer of full size (aliased window), the light-mode cache a real one.",
+        "floors": ["programs_compared"],
+    },
+    "C05": {
+        "level": "exploration",
+        "technique": "reference-model monitor in lock-step with the real interpreter (per instruction) + FP-domain invariant monitor at the interpreter hook",
+        "jobs": lambda tier: [
+            {"variant": "opt", "sub": "c05", "shards": 16, "cases": T(tier, 40, 2000), "args": {"steps": T(tier, 300000, 4000000), "nhashes": T(tier, 1, 12)}, "timeout": T(tier, 1800, 10800)},
+            {"variant": "asan", "sub": "c05", "shards": 4, "cases": T(tier, 6, 60), "args": {"steps": T(tier, 20000, 300000), "nhashes": 1}, "timeout": T(tier, 1800, 10800)},
+        ],
+        "rule": "workload A: sequences of 1-6 instruction words (directed encodings, a sweep over all 256 opcodes, random words) are compiled by the real compileInstruction and executed by the real executeInstruction on a harness-owned register file and scratchpad, "
+                "one instruction at a time, next to the model's step; states are drawn as spec 4.6 produces them (F from int32 pairs, E masked, A from 4.5.2) plus extremes; after every step all integer and FP registers, touched scratchpad bytes, rounding mode and next pc are compared. "
+                "workload B: whole generated programs run through the real vm->run() with the model in lock-step at the iteration-begin / after-instruction / iteration-end hooks, JIT end state compared with the model too. workload C: real hashes with the FP invariant monitor armed. "
+                "non-trivial: sampled sequences (1 in 16) and programs with a taken branch; distinct by hash",
+        "assumptions": MODEL_ASSUMPTIONS + ["FP invariants (no NaN/subnormal, E positive) are judged on random and real programs and on real hashes; adversarial all-FDIV_M/all-FMUL_R programs can leave the domain within one iteration and are only compared with the model (which implements FTZ/inf)"],
+        "level_text": "Each executed instruction of the real interpreter is compared with an independent software-floating-point model immediately after it executes, so operand selection, src==dst forms, masks, sign extension, branch decisions, last-writer targets and the CFROUND rule are judged at the step where they act. Sampling over 2^64 words x states: exploration.",
+        "level_note": "JIT single instructions are only observable at program end (C04 complements). Trusted base: the model VM.",
+    },
+    "C06": {
+        "level": "exploration",
+        "technique": "guard pages (PROT_NONE, 4 GiB tail) around scratchpad/dataset/cache/code buffer via link-time interposition + fault classifier, ASan/UBSan, code-area integrity hash, edge-placed I/O buffers",
+        "jobs": lambda tier: [
+            {"variant": "opt", "sub": "c06", "shards": 16, "cases": T(tier, 200, 8000), "args": {"placements": T(tier, 20, 300)}, "timeout": T(tier, 1800, 10800)},
+            {"variant": "asan", "sub": "c06", "shards": T(tier, 8, 16), "cases": T(tier, 40, 1500), "args": {"placements": T(tier, 10, 100)}, "timeout": T(tier, 1800, 10800)},
+        ],
+        "rule": "program cases as in C04 with emphasis on maximal-length encodings in light+v2+soft-AES (largest code), extreme immediates, every address-register choice, ma/mx=0x7fffffc0 with the maximal dataset offset (last dataset item), run by the interpreter and the (secure) JIT with every "
+                "scratchpad, cache, dataset and code buffer placed between PROT_NONE regions; per JIT run the bytes [16384, 81920) of the code buffer are hashed before/after and codePos must stay <= 16384; placement cases: input of length 0..300 and 32-byte output ending directly before a PROT_NONE page with a canary page in front, single, pipelined and commitment calls; "
+                "edge counters (measured at the interpreter hooks) show how often the first/last line/qword of each buffer was actually addressed; distinct by hash of program / placement",
+        "assumptions": ["a wrong but in-range address is not a C06 matter (C04/C05)", "generated code is invisible to ASan; its accesses are judged by the guard regions (all addresses are 32-bit offsets from a base register, so a 4 GiB PROT_NONE tail catches any mask error)"],
+        "level_text": "Any access outside the named buffers faults on a guard page (or trips ASan in the C++ parts) and is attributed to the running case; code generation is bounded by a read-back of the code buffer. Held on the programs explored; the evidence lists how often the buffer edges were reached.",
+        "level_note": "valgrind memcheck on generated code is not part of the gate (see DESIGN.md section 6).",
+    },
+    "C07": {
+        "level": "exploration",
+        "technique": "counter monitor at the interpreter hook + structural read-back of bytecode and emitted x86 branch code against the model's last-writer table + arithmetic monitor + JIT watchdog",
+        "jobs": lambda tier: [
+            {"variant": "opt", "sub": "c07", "shards": 16, "cases": T(tier, 300, 15000), "args": {"arith": T(tier, 1000000, 150000000)}, "timeout": T(tier, 1800, 10800)},
+        ],
+        "rule": "programs: generators of C04 alternating with branch-dense ones (all CBRANCH, CBRANCH after every integer writer incl. ISWAP and no-op IMUL_RCP) and budget-stress programs (writer-free body closed by one CBRANCH whose register value makes it jump twice: exactly 3|P| instructions); "
+                "for each: executed instructions per iteration and consecutive-taken runs per CBRANCH counted at the hook, every decoded CBRANCH (interpreter bytecode target/constant/mask/register; JIT add/test/jz operands and jump displacement read from the code buffer) compared with the model's decoder, JIT run under a watchdog; "
+                "arithmetic: (d, imm32, b) samples for all 16 b through the real compileInstruction + exe_CBRANCH three times; non-trivial = a branch was taken; distinct by hash of the program",
+        "assumptions": ["the arithmetic statement over 2^64 x 2^32 x 16 is sampled, not proved", "a JIT run exceeding 60 s + 200x the interpreter's time for the same program counts as non-termination"],
+        "level_text": "The budget 3|P| and the at-most-two-consecutive-jumps rule are monitored on every executed iteration of every explored program (max ratio 3.000 is reached by construction), and the static ingredients (target after last writer, bit b set, bit b-1 clear, 8-bit mask) are read back from both engines' compiled form.",
+        "level_note": "Exploration: programs and (d, imm, b) triples are sampled.",
     },
 }
